@@ -1,15 +1,17 @@
 (* C02 - Storage backend and key layout never change an answer.
    Only statements closed by [exact]; proofs are in Proofs/.
 
-   What is proved concerns the RocksDB read path that the v2 (closest-key) reader adds to the
-   label-by-label one: SeekForPrev, and the per-request context cache shared by exact gets and
-   closest-key lookups (dnsdata/rdb/rdb.go).  [uniq st] : every key is stored once.
+   Headline: C02_v2_equals_v1 (the handler over RocksDB v2 keys = the handler over RocksDB v1 keys,
+   outcome for outcome), C02_cdb_equals_v1, C02_three_backends - at the end of this file.
+   First part: the RocksDB read path that the v2 (closest-key) reader adds to the label-by-label
+   one: SeekForPrev, and the per-request context cache shared by exact gets and closest-key lookups
+   (dnsdata/rdb/rdb.go).  [uniq st] : every key is stored once.
    [closest_sound st c] : every cache entry (search key -> found key, data) is what SeekForPrev
    returns for the search key - true of the empty cache a request starts with and preserved by
    everything the closest-key walk does. *)
 From DnsV Require Import Base.Bytes Model.Store Model.LookupV1 Model.LookupV2.
 From DnsV Require Import Spec.Answer Spec.Rows Proofs.ZoneCut Proofs.Store Proofs.Ctx Proofs.CtxFind Proofs.Reverse Proofs.SortedStore.
-From DnsV Require Import Model.Serve Proofs.Compile Proofs.RevOrder Proofs.V2Funcs Proofs.SeekSkip Proofs.V2Store Proofs.V2Sim Proofs.V2Readers Proofs.V2Serve Proofs.V2Corollaries.
+From DnsV Require Import Model.Serve Proofs.Compile Proofs.RevOrder Proofs.V2Funcs Proofs.SeekSkip Proofs.V2Store Proofs.V2Sim Proofs.V2Readers Proofs.V2Serve Proofs.V2Corollaries Proofs.Referral Proofs.CdbRdb1.
 Open Scope N_scope.
 
 (* SeekForPrev as modelled: the key found is a key of the store, returned with its own rows,
@@ -217,15 +219,52 @@ Theorem C02_v2_store_irrelevant : forall recs L st st' q n ecs max,
 Proof. exact v2_any_store. Qed.
 Print Assumptions C02_v2_store_irrelevant.
 
+(* C02_cdb_equals_v1.  The CDB driver and the RocksDB driver with v1 keys run the same
+   label-by-label reader over the same key -> rows map and differ in one place: cdbdriver.ForEach
+   does not return an error returned by the callback, rdb.ForEach does.  Only GetNs returns errors
+   (NS rdata that is not a name), so over records whose NS rdata is a wire name ([wf_ns_rdata],
+   what the compiler writes) the two handlers agree on every query, client outcome and option *)
+Theorem C02_cdb_equals_v1 : forall recs q locr ecs max,
+  wf_recs recs -> Forall wf_ns_rdata recs ->
+  serve CDB (store_v1 recs) q locr ecs max = serve RDB1 (store_v1 recs) q locr ecs max.
+Proof. exact serve_cdb_equals_rdb1. Qed.
+Print Assumptions C02_cdb_equals_v1.
+
+(* the same for any store over which GetNs never returns an error *)
+Theorem C02_cdb_equals_v1_store : forall st q locr ecs max,
+  (forall zname cls, okcb st (ns_cb zname cls)) ->
+  serve CDB st q locr ecs max = serve RDB1 st q locr ecs max.
+Proof. exact serve_cdb_equals_rdb1_store. Qed.
+Print Assumptions C02_cdb_equals_v1_store.
+
+(* without that guard the two DO differ - on rows no compiler output contains (an NS row whose
+   rdata is not a name: RocksDB sends an empty authority section, CDB the NS records read before
+   the bad one).  Outside the property (not a compiled data file); recorded so that the guard is
+   seen to be necessary *)
+Theorem C02_cdb_rdb1_differ_on_malformed_ns_row :
+  exists st q locr ecs max, serve CDB st q locr ecs max <> serve RDB1 st q locr ecs max.
+Proof. exact cdb_rdb1_differ_on_bad_ns. Qed.
+Print Assumptions C02_cdb_rdb1_differ_on_malformed_ns_row.
+
+(* the property's sentence at the level of the handler model: the three backends give the same
+   outcome to every query from every located client *)
+Theorem C02_three_backends : forall recs L, wf_recs recs -> Forall wf_ns_rdata recs -> length L = 2%nat -> wf_view L recs = true ->
+  forall q n ecs max, wf_name n -> nlen (pack n) <= 255 -> lower_bytes (q_name q) = pack n ->
+  serve RDB2 (store_v2 recs) q (LocOk L) ecs max = serve CDB (store_v1 recs) q (LocOk L) ecs max /\
+  serve RDB1 (store_v1 recs) q (LocOk L) ecs max = serve CDB (store_v1 recs) q (LocOk L) ecs max.
+Proof. exact three_backends. Qed.
+Print Assumptions C02_three_backends.
+
 (* Remarks.
    * wf_view is needed: with a visible SOA but no visible NS anywhere above, IsAuthoritative finds
      no zone cut; the v1 reader then reports the root as zone cut, the v2 reader the last name it
      probed, and FindSOA at those two names can differ.  Such data is outside the statement
      (a zone without NS records).
-   * NOT proved here: C02_cdb_equals_v1 (CDB against RocksDB v1: the two differ only in whether
-     ForEach returns a callback error, which needs an NS record whose rdata is not a name); the
-     compiler side (C07).  The differential run compares the three real servers pairwise on every
-     query (Run/C02.v) and the v2 model against the RocksDB-v2 server (Run/Core.v). *)
+   * NOT proved here: the compiler side - that the three compilers produce [store_v1 recs] /
+     a [v2_store recs] from the same file with any options (C07 owns the key -> rows map; the
+     differential run checks the dumps against Spec/Rows: Run/Core.v compile_ok); the location
+     lookup (C03: FindLocation is an oracle of [serve]).  The differential run compares the three
+     real servers pairwise on every query (Run/C02.v) and each model against its server (Run/Core.v). *)
 
 (* the hypotheses are satisfiable and the conclusion is not vacuous: a located client, a wildcard
    below the apex, the closest-key reader skipping from a.b.z to z *)
